@@ -39,6 +39,15 @@ claim('C18', 'verus',
       'Not decided: bincode package round trip, corrupted-file refusal, build-via-package equality, Dora-side readers, jump tables.',
       'DESIGN.md §4 C18')
 
+claim('C20', 'verus',
+      'contract-based deductive verification (Verus) of the real position.rs functions, extracted mechanically on every run',
+      'Clauses decided: (1) converting a byte offset on a character boundary to (line, UTF-16 column) and back returns the same offset; (2) positions past the end of a line or of the document are clamped into the document. '
+      'utf8_offset_to_utf16_position, utf16_position_to_utf8_offset and span_to_range carry Verus contracts against char-level spec functions (to_position_spec, to_offset_spec); round trip and clamping are lemmas over them, '
+      'for all texts (any line-ending style, astral characters), all boundary offsets and ALL (line, column) pairs, with proofs of no slice/index/overflow panic under the stated well-formedness of the line table.',
+      'Trusted: Verus/Z3, vstd (encode_utf8 lemmas, char::len_utf8), assumed std contracts in evidence.trusted_base (str range indexing, chars(), encode_utf16().count(), binary_search, char::len_utf16), '
+      'ASSUMED well-formedness of compute_line_starts (Peekable<Chars> is outside Verus; cross-checked by the replay runner on every generated text). Not decided: symbol ranges, server entry points.',
+      'DESIGN.md §4 C20')
+
 NA_REASONS = {
  'C01': 'quantifies over all programs and the behaviour of emitted machine code of two generators (one written in Dora); no function contract can state it',
  'C02': 'relational property between two compilers over all programs and run-time values; memory safety of generated code is not a property of a Rust function',
